@@ -145,7 +145,7 @@ def check_case(case, rec=None):
     return c02.check_case(case, rec)
 
 
-N = {"quick": 130, "thorough": 2500}
+N = {"quick": 130, "thorough": 1200}
 
 
 def run(rec, seed, tier):
